@@ -13,7 +13,7 @@ import treelib
 
 def run(c, idx, base):
     root = os.path.join(base, 'c%d' % idx)
-    treelib.materialise(root, c['tree'], c.get('order_seed', 0))
+    treelib.materialise(root, c['tree'], c.get('order_seed', 0), store=os.path.join(base, 'store%d' % idx))
     before = treelib.snapshot(root)
     argv = []
     for kind, rel in c['roots']:
